@@ -296,4 +296,30 @@ example : ∃ ix db, buildA toyHF 9 25000 [([1], [2, 3]), ([], [7])] [⟨[4,5], 
   obtain ⟨f1, f2, _⟩ := buildA_ok toyHF 9 25000 _ _ ix h
   exact ⟨ix, db, h, hdb, by rw [e1, f1], by rw [e2, f2]; decide, hall ⟨[4,5], [1,2,3,4,5,6,7,8,9]⟩ (by simp)⟩
 
+example : ∃ ix db, buildA toyHF 9 25000 [] [⟨[4,5], [1,2,3,4,5,6,7,8,9]⟩] = .ok ix ∧
+    openB (encode ix).toArray = .ok db ∧ lookupB toyHF (encode ix).toArray db [4] = .notFound := by
+  obtain ⟨ix, h⟩ := build_singleton_ok toyHF 9 25000 [] ⟨[4,5], [1,2,3,4,5,6,7,8,9]⟩
+    (by omega) (by omega) 2 (by decide) (by decide)
+  obtain ⟨db, hdb, hall⟩ := lookup_bytes_agree toyHF 9 25000 _ _ ix h ⟨by decide, by simp⟩ (by decide) (by decide)
+    (by decide) (by intro kv hkv; simp only [List.mem_cons, List.mem_nil_iff, or_false] at hkv; subst hkv; rfl)
+  refine ⟨ix, db, h, hdb, ?_⟩
+  rw [hall]
+  obtain ⟨_, f2, _⟩ := buildA_ok toyHF 9 25000 _ _ ix h
+  have f3 : ix.numBuckets = 3 := by rw [f2]; decide
+  have hlen := (bucket_mem_of_build toyHF 9 25000 _ _ ix h).1
+  have hb : toyHF.bucket [4] ix.numBuckets = some 1 := by rw [f3]; decide
+  have hget : ix.buckets[1]? = some ix.buckets[1] := List.getElem?_eq_getElem (by omega)
+  cases hl : lookupA toyHF ix [4] with
+  | found v =>
+    obtain ⟨kv, hkv, i, b, h1, h2, _⟩ := lookup_sound toyHF 9 25000 _ _ ix h _ _ hl
+    simp only [List.mem_cons, List.mem_nil_iff, or_false] at hkv
+    subst hkv
+    rw [f3] at h1 h2
+    have e1 : i = 1 := (Option.some.inj h1).symm
+    have e2 : i = 2 := (Option.some.inj h2).symm
+    omega
+  | notFound => rfl
+  | hang => simp only [lookupA, hb, hget] at hl; split at hl <;> cases hl
+  | err => simp only [lookupA, hb, hget] at hl; split at hl <;> cases hl
+
 end C04
